@@ -68,7 +68,7 @@ def ids_of(x):
 
 
 class Tracer:
-    def __init__(self, max_legs, snapshot_every=1, record_fresh=True, record_instates=True):
+    def __init__(self, max_legs, snapshot_every=1, record_fresh=True, record_instates=True, light=False):
         self.max_legs = max_legs
         self.legs = []
         self.cur = None
@@ -83,6 +83,10 @@ class Tracer:
         self.draws = 0
         self.record_fresh = record_fresh
         self.record_instates = record_instates
+        # light: after the start the tracer never asks the state handler for the global state itself (an observer
+        # that extracts the state at every leg refreshes caches of the state handler and hides their staleness);
+        # the delta of a commit is then taken from the committed out-state (commit == override is C13's property)
+        self.light = light
         self.pending_ids = {}      # handler idx -> in-state ids it is currently running with
         self.instate_of = {}       # handler idx -> in-state units its pending candidate was computed from
         self.pending_time = {}     # handler idx -> bits of the candidate time pushed last
@@ -192,7 +196,15 @@ class Tracer:
         self.init_state = snap
         self.last_snapshot = {tuple(u["id"]): u for u in flatten(mediator._state_handler.extract_global_state())}
 
-    def snapshot_delta(self):
+    def snapshot_delta(self, out=None):
+        if self.light:
+            delta = []
+            for u in out or []:
+                k = tuple(u["id"])
+                if self.last_snapshot.get(k) != u:
+                    delta = [x for x in delta if tuple(x["id"]) != k] + [u]
+                    self.last_snapshot[k] = u
+            return delta
         snap = {tuple(u["id"]): u for u in flatten(self.mediator._state_handler.extract_global_state())}
         delta = [u for k, u in snap.items() if self.last_snapshot.get(k) != u]
         self.last_snapshot = snap
@@ -364,7 +376,7 @@ def install():
             if mine:
                 t.insert_depth -= 1
                 if t.insert_depth == 0:
-                    t.cur["delta"] = t.snapshot_delta()
+                    t.cur["delta"] = t.snapshot_delta(t.cur["out"])
                     t.cur["draws"] = t.draws
     TreeStateHandler.insert_into_global_state = insert
 
